@@ -40,9 +40,8 @@ import (
 //     column (named "<output>__agg_count") for MEAN. The batch is prefixed
 //     with a RoleShardID column populated from the input batch's shard-id
 //     column at the first row that creates each group (matching the row
-//     path's incidental "first-idp" rule, measure_plan_aggregation.go:285);
-//     scalar reduce (len(keyIndices)==0) emits shard_id=0 (matching the row
-//     path's aggAllIterator.Current() at :364). The partial batch is then
+//     path's "first-idp" rule, measure_plan_aggregation.go), for grouped and
+//     for scalar reduce alike. The partial batch is then
 //     serialized by pkg/query/vectorized/measure/frame.Encode for cluster
 //     transport.
 //   - AggModeReduce — coordinator's Reduce phase (G9f.3). Consumes the
@@ -443,12 +442,13 @@ func (a *BatchAggregation) newGroup(b *vectorized.RecordBatch, rowIdx int, key s
 		slots[i] = slot
 	}
 	g := &aggGroup{key: key, tagCols: tagCols, slots: slots}
-	// Capture the first-fed-idp's shard for AggModeMap on grouped agg, mirroring
-	// the row path's incidental rule at measure_plan_aggregation.go:285 (the
-	// G9f.2.a semantic-repro requirement). Scalar reduce (len(keyIndices)==0)
-	// leaves shardID at zero — matching the row path's aggAllIterator.Current()
-	// hardcoding ShardId: 0 at :364. AggModeAll never reads the field.
-	if a.mode == AggModeMap && a.shardIDIdx >= 0 && len(a.keyIndices) > 0 {
+	// Capture the first-fed-idp's shard for AggModeMap, mirroring the row path's
+	// rule (measure_plan_aggregation.go: the group-by iterator and, for scalar
+	// reduce, aggAllIterator carry the shard id of the aggregated rows). The
+	// coordinator de-duplicates partials on (shard_id, group_key) to drop replica
+	// responses: a scalar partial emitted with shard_id 0 by every data node would
+	// make it keep the first node's partial only. AggModeAll never reads the field.
+	if a.mode == AggModeMap && a.shardIDIdx >= 0 {
 		if shardCol, ok := b.Columns[a.shardIDIdx].(*vectorized.TypedColumn[int64]); ok {
 			data := shardCol.Data()
 			if rowIdx >= 0 && rowIdx < len(data) {
